@@ -14,7 +14,9 @@ META = {
     'rule': ('Generated models x recipes, each quantized twice through the '
              'public API: once on the ordinary path and once with the guarded '
              'hook lowering the large-model threshold to -1 (every model takes '
-             'the external-buffer path). Both byte strings are raw-parsed. '
+             'the external-buffer path); in a quarter of the cases the '
+             'Quantizer object has already quantized with another recipe. '
+             'Both byte strings are raw-parsed. '
              'Non-trivial = >= 2 non-empty buffers of different sizes, at least '
              'one whose size is not a multiple of 16; distinct by case hash.'),
     'assumptions': ['hook AI_EDGE_QUANTIZER_VERIF_LARGE_MODEL_THRESHOLD only changes which serializer is chosen',
@@ -22,6 +24,7 @@ META = {
     'low_yield': {'label': 'returned', 'floor': 0.6},
 }
 ENV = 'AI_EDGE_QUANTIZER_VERIF_LARGE_MODEL_THRESHOLD'
+PRIORS = ['default_af32w4float_recipe', 'default_af32w8float_recipe', 'dynamic_wi8_afp32_recipe']
 
 
 @st.composite
@@ -35,8 +38,12 @@ def cases(draw, tier):
     recipe = {'kind': 'rules', 'rules': draw(R.rules_for(
         names, engine.ops_present(mspec), max_rules=3, cfg_pool=R.COMMON_CFGS,
         allow_skip=False))}
-  return {'model': mspec, 'recipe': recipe, 'calib_seeds': [draw(st.integers(0, 99))],
+  case = {'model': mspec, 'recipe': recipe, 'calib_seeds': [draw(st.integers(0, 99))],
           'input_seed': draw(st.integers(0, 99))}
+  if draw(st.integers(0, 3)) == 0:
+    # the Quantizer object was already used once with another recipe
+    case['prior'] = draw(st.sampled_from(PRIORS))
+  return case
 
 
 def _strip(model):
@@ -61,7 +68,7 @@ def check_case(case):
     raise Violation('one_path_raises', 'small: %r large: %r' % (small.exc, large.exc))
   if not small.ok:
     return core.result(False, ['raised:' + str(small.stage)])
-  labels = ['returned']
+  labels = ['returned'] + (['quantizer_used_before'] if case.get('prior') else [])
   a, b = fb.parse(small.qbytes), fb.parse(large.qbytes)
   raw = large.qbytes
   if core.jdump(_strip(a)) != core.jdump(_strip(b)):
